@@ -144,14 +144,6 @@ Goal (forall (ct : crate_types) (own : str) (l1 l2 : list imported),
 Proof. exact Props.C14.C14_import_list_order_irrelevant. Qed.
 Print Assumptions Props.C14.C14_import_list_order_irrelevant.
 Goal exists arrivals pd v,
-    parse_workspace uc_exec [] [] (fun l => l) Proofs.C14Witness.ws_renamed = Ok arrivals /\
-    In (lit "my_crate", pd) (multi_crates (fun l => l) arrivals) /\
-    In v (judge_crate (Proofs.C14Main.c14_infos uc_exec [] Proofs.C14Witness.ws_renamed) [] (lit "my_crate")
-            (scoped_pairs (crate_imports (fun l => l) (multi_crates (fun l => l) arrivals) (lit "my_crate") pd))) /\
-    rv_known v = Some "C14-renamed-import" /\ rv_imported v = false.
-Proof. exact Props.C14.C14_renamed_import_refuted. Qed.
-Print Assumptions Props.C14.C14_renamed_import_refuted.
-Goal exists arrivals pd v,
     parse_workspace uc_exec [] [] (fun l => l) Proofs.C14Witness.ws_same_name = Ok arrivals /\
     In (lit "my_crate", pd) (multi_crates (fun l => l) arrivals) /\
     In v (judge_crate (Proofs.C14Main.c14_infos uc_exec [] Proofs.C14Witness.ws_same_name) [] (lit "my_crate")
@@ -179,6 +171,25 @@ Goal Proofs.C14Witness.w_run (fun l => l) (fun l => l) Proofs.C14Witness.ws_glob
     Some ([(lit "a", lit "A1"); (lit "a", lit "A2Renamed"); (lit "a", lit "A3")], [(lit "A1", lit "a", true, None, true)]).
 Proof. exact Props.C14.C14_glob_order_fixed. Qed.
 Print Assumptions Props.C14.C14_glob_order_fixed.
+Goal renamed_in (Proofs.C14Main.c14_infos uc_exec [] Proofs.C14Witness.ws_renamed) (lit "a") (lit "A2") = lit "A2Renamed" /\
+  exists arrivals pd v,
+    parse_workspace uc_exec [] [] (fun l => l) Proofs.C14Witness.ws_renamed = Ok arrivals /\
+    In (lit "my_crate", pd) (multi_crates (fun l => l) arrivals) /\
+    In v (judge_crate (Proofs.C14Main.c14_infos uc_exec [] Proofs.C14Witness.ws_renamed) [] (lit "my_crate")
+            (scoped_pairs (crate_imports (fun l => l) (multi_crates (fun l => l) arrivals) (lit "my_crate") pd))) /\
+    rv_name v = lit "A2" /\ rv_from v = lit "a" /\ rv_dom v = true /\ rv_known v = None /\ rv_imported v = true.
+Proof. exact Props.C14.C14_renamed_import_fixed. Qed.
+Print Assumptions Props.C14.C14_renamed_import_fixed.
+Goal Proofs.C14Witness.w_run (fun l => l) (fun l => l) Proofs.C14Witness.ws_renamed (lit "my_crate") =
+    Some ([(lit "a", lit "A2Renamed")], [(lit "A2", lit "a", true, None, true)]) /\
+  Proofs.C14Witness.w_run (fun l => l) (fun l => l) Proofs.C14Witness.ws_renamed_path (lit "my_crate") =
+    Some ([(lit "a", lit "A2Renamed")], [(lit "A2", lit "a", true, None, true)]) /\
+  Proofs.C14Witness.w_field_types Proofs.C14Witness.ws_renamed (lit "my_crate") = [RSimple (lit "A2Renamed")] /\
+  Proofs.C14Witness.w_import_text Proofs.C14Witness.ws_renamed (lit "my_crate") = (lit "import { A2Renamed } from ""./a"";" ++ [10%N; 10%N])%list /\
+  Proofs.C14Witness.w_field_types Proofs.C14Witness.ws_renamed_path (lit "my_crate") = [RSimple (lit "A2Renamed")] /\
+  Proofs.C14Witness.w_import_text Proofs.C14Witness.ws_renamed_path (lit "my_crate") = (lit "import { A2Renamed } from ""./a"";" ++ [10%N; 10%N])%list.
+Proof. exact Props.C14.C14_renamed_import_fixed_exact. Qed.
+Print Assumptions Props.C14.C14_renamed_import_fixed_exact.
 Goal Proofs.C14Witness.w_run (fun l => l) (fun l => l) Proofs.C14Witness.ws_glob_const (lit "my_crate") =
     Some ([(lit "k", lit "K1")], [(lit "K1", lit "k", true, None, true)]) /\
   Proofs.C14Witness.w_run (@rev _) (fun l => l) Proofs.C14Witness.ws_glob_const (lit "my_crate") =
